@@ -141,3 +141,49 @@ def Textgrid_editTimestamps(self, offset, reportingMode):
             t = t.editTimestamps(offset, reportingMode)
         new.addTier(t, None, reportingMode)
     return new
+
+
+# ---- C09: appendTextgrid.  "Appending textgrid B to A yields A's entries unchanged followed by B's entries shifted
+# by A's end time, a span ending at the sum of both end times, and the tier set documented for onlyMatchingNames"
+# (documented: only the names present in both when True; otherwise A's names followed by B's other names)
+
+from spec.tiers import shift_entry
+
+
+def Textgrid_appendTextgrid(self, tg, onlyMatchingNames):
+    a = self.tierNames
+    b = tg.tierNames
+    lo = self.minTimestamp
+    hi = self.maxTimestamp + tg.maxTimestamp
+    new = Textgrid(lo, hi)
+    if onlyMatchingNames is False:
+        final = list(a) + [n for n in b if n not in a]
+    else:
+        final = [n for n in a if n in b]
+    for n in final:
+        if n in a and n in b:
+            A = self._tierDict[n]
+            B = tg._tierDict[n]
+            t = type(A)(A.name, list(A.entries) + [shift_entry(e, self.maxTimestamp) for e in B.entries], lo, hi)
+        elif n in a:
+            t = self._tierDict[n]
+        else:
+            B = tg._tierDict[n]
+            t = type(B)(B.name, [shift_entry(e, self.maxTimestamp) for e in B.entries], lo, hi)
+        new.addTier(t, None, "silence")
+    return new
+
+
+# ---- C07 / C12: Textgrid.eraseRegion is tier-wise truncating erasure; names and order kept; the span shrinks by
+# the erased duration iff doShrink
+
+
+def Textgrid_eraseRegion(self, start, end, doShrink):
+    if start >= end:
+        raise errors.ArgumentError("")
+    new = Textgrid(self.minTimestamp, self.maxTimestamp)
+    for name in self.tierNames:
+        new.addTier(self._tierDict[name].eraseRegion(start, end, "truncate", doShrink), None, "silence")
+    if doShrink is True:
+        new.maxTimestamp = start + (self.maxTimestamp - end)
+    return new
